@@ -18,6 +18,7 @@ package watcher
 
 import (
 	"context"
+	"path/filepath"
 	"sync"
 
 	"github.com/fsnotify/fsnotify"
@@ -86,6 +87,9 @@ func (w *watcher) stop(_ context.Context) error {
 func (w *watcher) Add(path string, cl ChangeListener) error {
 	w.mut.Lock()
 	defer w.mut.Unlock()
+
+	// events are reported for the cleaned path
+	path = filepath.Clean(path)
 
 	list, ok := w.m[path]
 	if !ok {
